@@ -479,6 +479,129 @@ func TestVerifC11CloneIndependent(t *testing.T) {
 	})
 }
 
+// TestVerifC11RejectedEdit drives the consequence named in the property text through the same calls the
+// Control API makes (Core.doAPIConfig*): Clone, apply one edit to the copy, Validate. Whether the edit is
+// accepted or rejected, the configuration that was cloned must still equal the harness's snapshot.
+func TestVerifC11RejectedEdit(t *testing.T) {
+	rec := kit.R("TestVerifC11RejectedEdit")
+	t.Cleanup(kit.Flush)
+	opts := cgDocOpts{MaxGlobal: 5, MaxPerPath: 5, MaxPaths: 3}
+	poison := []map[string]any{
+		{"source": "bogus://not-a-source"},
+		{"recordPath": "/no/path/token"},
+		{"srtReadPassphrase": "short"},
+		{"recordSegmentDuration": "30d"},
+		{"sourceRedirect": "/x"},
+		{"alwaysAvailable": true},
+	}
+	poisonGlobal := []map[string]any{
+		{"readTimeout": "-1s"},
+		{"writeQueueSize": int64(1000)},
+		{"udpMaxPayloadSize": int64(5000)},
+		{"authMethod": "http", "authHTTPAddress": ""},
+		{"rtspAuthMethods": []any{}},
+	}
+
+	rapid.Check(t, func(t *rapid.T) {
+		doc := cgGenConfDoc(t, opts)
+		conf, err := cgLoadYAML(cgRenderYAML(doc, rapid.IntRange(0, 5).Draw(t, "yamlStyle")), nil)
+		docJSON, _ := json.Marshal(doc)
+		if err != nil {
+			rec.Case(false, string(docJSON), "generated-document-rejected-by-Load")
+			return
+		}
+		snap := cgDeepCopy(reflect.ValueOf(conf))
+
+		names := make([]string, 0, len(conf.OptionalPaths))
+		for n := range conf.OptionalPaths {
+			names = append(names, n)
+		}
+		sort.Strings(names)
+
+		ops := []string{"patchGlobal", "patchPathDefaults", "addPath"}
+		if len(names) > 0 {
+			ops = append(ops, "patchPath", "patchPath", "patchPath", "replacePath", "removePath")
+		}
+		op := rapid.SampledFrom(ops).Draw(t, "op")
+		poisoned := rapid.Bool().Draw(t, "poisoned")
+
+		var payload map[string]any
+		target := ""
+		switch op {
+		case "patchGlobal":
+			payload, _ = cgGenStructDoc(t, reflect.TypeOf(Conf{}), "edit", 0, 4, map[string]bool{"pathDefaults": true, "paths": true})
+			cgFixDoc(payload)
+			if poisoned {
+				for k, v := range rapid.SampledFrom(poisonGlobal).Draw(t, "poison") {
+					payload[k] = v
+				}
+			}
+		case "patchPathDefaults":
+			excl := map[string]bool{}
+			for k := range cgPathRoleFields {
+				excl[k] = true
+			}
+			payload, _ = cgGenStructDoc(t, reflect.TypeOf(Path{}), "edit", 0, 4, excl)
+		case "addPath":
+			target = cgGenValidPathName().Draw(t, "newName")
+			payload = cgGenPathEntity(t, target, opts, "edit")
+		default:
+			target = rapid.SampledFrom(names).Draw(t, "target")
+			payload = cgGenPathEntity(t, target, opts, "edit")
+		}
+		if poisoned && op != "patchGlobal" {
+			for k, v := range rapid.SampledFrom(poison).Draw(t, "poison") {
+				payload[k] = v
+			}
+		}
+		body, _ := json.Marshal(payload)
+
+		newConf := conf.Clone()
+		var applyErr error
+		switch op {
+		case "patchGlobal":
+			var in OptionalGlobal
+			if applyErr = json.Unmarshal(body, &in); applyErr == nil {
+				newConf.PatchGlobal(&in)
+			}
+		case "removePath":
+			applyErr = newConf.RemovePath(target)
+		default:
+			var in OptionalPath
+			if applyErr = json.Unmarshal(body, &in); applyErr == nil {
+				switch op {
+				case "patchPathDefaults":
+					newConf.PatchPathDefaults(&in)
+				case "addPath":
+					applyErr = newConf.AddPath(target, &in)
+				case "patchPath":
+					applyErr = newConf.PatchPath(target, &in)
+				case "replacePath":
+					applyErr = newConf.ReplacePath(target, &in)
+				}
+			}
+		}
+		var valErr error
+		if applyErr == nil {
+			valErr = newConf.Validate(nil)
+		}
+
+		desc := fmt.Sprintf("doc=%s op=%s target=%q payload=%s", docJSON, op, target, body)
+		if d := cgDiff(reflect.ValueOf(conf), snap, c11Strict, "Conf"); d != "" {
+			t.Fatalf("%s (apply error: %v, Validate error: %v): the edit was made on a Clone, yet the running configuration changed: %s",
+				desc, applyErr, valErr, d)
+		}
+		outcome := "accepted"
+		if applyErr != nil {
+			outcome = "refused-before-validate"
+		} else if valErr != nil {
+			outcome = "rejected-by-validate"
+		}
+		rec.Case(outcome == "rejected-by-validate" && (op == "patchPath" || op == "patchPathDefaults" || op == "patchGlobal"),
+			desc, op, outcome, op+"/"+outcome)
+	})
+}
+
 // ---------------------------------------------------------------------------------------------
 // regression tests (plain Go) for the defect found on the unchanged tree
 
